@@ -17,7 +17,7 @@ All arguments are `key=value` tokens.  Histories (`hist=`, `dhist=`) are comma s
 `chunk.wire secs= dmode=<empty|hist|wire|self> extra=<hex> reg= nb= air=<id.id.id> hist= dhist=`
    `=> ok n= len= wd=<digest of the bytes written> rn= left= W=<sec/sec/…> Wmb= Wws= R=<sec/sec/…> Rmb= Rws= E=<ent;ent;…>`
    section = `count.nonair.statesDigest.biomesDigest`; W = the source before writing, R = the destination after reading.
-`chunk.save secs= ypos= via=<mem|nbt> reg= nb= air= hist=`
+`chunk.save secs= ypos= via=<mem|nbt> psecs=<n|-> phist=<history> reg= nb= air= hist=`   (psecs/phist: the destination `save.Chunk` was filled before by that chunk)
    `=> ok W=<sec…> Y=<y.y.…> SP=<per section: |states palette|.digest(data).|biomes palette|.digest(data)> SH=<six raw-long digests> Sst=<hex> R=<sec…> RH=<six> Rst=<hex>`
    W section = `count.nonair.statesDigest.biomesDigest.statesBits.biomesBits`, R section = `count.nonair.sd.bd.sky.blk`.
 `light.rt used= extra= sky=<hex longs> blk= sl=<len:a:m;…> bl=` `=> ok n= len= rn= left= sky= blk= sl= bl=`
@@ -289,15 +289,39 @@ def save (args : List String) : Option String := do
   let secs ← (← kv args "secs").toNat?
   let hist ← parseHist (← kv args "hist")
   let ypos ← (← kv args "ypos").toInt?
-  match build x secs hist with
-  | .ok src =>
+  -- the prior content of the destination
+  let fresh : SaveChunk Int Int := SaveChunk.fresh (BitVec.ofInt 32 ypos)
+  let dst0 : Option (Res (SaveChunk Int Int)) :=
+    match kv args "psecs" with
+    | none => some (.ok fresh)
+    | some "-" => some (.ok fresh)
+    | some ps => do
+      let pn ← ps.toNat?
+      let phist ← parseHist ((kv args "phist").getD "-")
+      match build x pn phist with
+      | .ok prior =>
+        match chunkToSave (idReg x) x.gbS x.gbB fresh prior with
+        | .ok sv0 => pure (.ok { sv0 with otherHM := [("WORLD_SURFACE_IGNORE_SNOW".toUTF8.toList.map (fun b => BitVec.ofNat 8 b.toNat), [1#64, 2#64, 3#64])],
+                                           untouched := "7.-3.3953.99".toUTF8.toList.map (fun b => BitVec.ofNat 8 b.toNat) })
+        | .err => pure .err
+        | .panic => pure .panic
+      | _ => pure .panic
+  match build x secs hist, ← dst0 with
+  | _, .err => pure "err@prior"
+  | _, .panic => pure "panic"
+  | .ok src, .ok d0 =>
     let w ← secsObs x src true false
-    match chunkToSave (idReg x) x.gbS x.gbB (BitVec.ofInt 32 ypos) src with
+    match chunkToSave (idReg x) x.gbS x.gbB d0 src with
     | .ok sv =>
       let ys := if sv.secs.isEmpty then "-" else ".".intercalate (sv.secs.map fun s => toString s.y.toInt)
       let sp := if sv.secs.isEmpty then "-" else "/".intercalate (sv.secs.map fun s =>
         s!"{s.states.palette.length}.{digestLongs (s.states.data.getD [])}.{s.biomes.palette.length}.{digestLongs (s.biomes.data.getD [])}")
-      let head := s!"W={w} Y={ys} SP={sp} SH={saveHmSix sv.hm} Sst={hexOfBytes sv.status}"
+      let keepS := if sv.untouched.isEmpty then "0.0.0.0" else String.ofList (sv.untouched.map fun b => Char.ofNat b.toNat)
+      let otherS := match sv.otherHM with
+        | [] => "-"
+        | (_, ls) :: _ => digestLongs ls
+      let keep := s!"{keepS}.{otherS}.{sv.ypos.toInt}.0.{6 + sv.otherHM.length}"
+      let head := s!"W={w} Y={ys} SP={sp} SH={saveHmSix sv.hm} Sst={hexOfBytes sv.status} K={keep}"
       match chunkFromSave (idReg x) x.gbS x.gbB sv with
       | .ok dst =>
         let r ← secsObs x dst false true
@@ -306,7 +330,7 @@ def save (args : List String) : Option String := do
       | .panic => pure s!"panic@fromsave {head}"
     | .err => pure s!"err@tosave W={w}"
     | .panic => pure "panic"
-  | _ => pure "panic"
+  | _, _ => pure "panic"
 
 /-- the destination `c13UsedChunk(secs)` of the malformed-input stream -/
 def usedChunk (x : Ctx) (secs : Nat) : Res MChunk :=
@@ -405,7 +429,7 @@ def saveHm (args : List String) : Option String := do
   let x : Ctx := { gbS := 15, gbB := 6, reg := 26684, nb := 63, air := [0] }
   match build x secs [] with
   | .ok c =>
-    match chunkToSave (idReg x) x.gbS x.gbB 0#32 c with
+    match chunkToSave (idReg x) x.gbS x.gbB (SaveChunk.fresh 0#32) c with
     | .ok sv =>
       let v : Option Longs := if longs < 0 then none else some (List.replicate longs.toNat 0#64)
       let h := sv.hm
@@ -462,7 +486,10 @@ def saveV (args : List String) (obs : String) : Verdict :=
       s!"{secBase cm.air s}.{digestBytes s.sky}.{digestBytes s.blk}")
     -- palette sizes and packed indices of the save form are representation detail: taken from the observation
     let spObs := (kv toks "SP").getD "?"
-    let want := s!"ok W={wWant} Y={yWant} SP={spObs} SH={sh} Sst={sst} R={rWant} RH={sh} Rst={sst}"
+    -- the prior content of the destination must not show anywhere except in the fields ChunkToSave does not own
+    let hasPrior := match kv args "psecs" with | none => false | some "-" => false | some _ => true
+    let keepWant := if hasPrior then s!"7.-3.3953.99.3:{hex16 (([1, 2, 3] : List Nat).foldl (fun h v => fnvStep h (UInt64.ofNat v)) fnvOff)}.{ypos}.0.7" else s!"0.0.0.0.-.{ypos}.0.6"
+    let want := s!"ok W={wWant} Y={yWant} SP={spObs} SH={sh} Sst={sst} K={keepWant} R={rWant} RH={sh} Rst={sst}"
     { model := if withModel then model0 else want, spec := if obs == want then none else some ("save round trip: " ++ firstDiff want obs) }
   | _, _, _ => { model := "bad-arg" }
 
